@@ -548,6 +548,10 @@ class _DiffFromAlignmentBuilder:
     self.changes: List[DiffOperation] = []
     self.new_shared_values: List[Any] = []
     self.alignment: DiffAlignment = alignment
+    # Ids of tuples in `alignment.new` that are aligned, but whose items differ
+    # from the old tuple's: tuples can't be modified in place, so they are
+    # treated as new values (and replaced as a whole in their parent).
+    self._replaced_tuple_ids = set()
     self.paths_by_old_id = daglish_legacy.collect_paths_by_id(
         alignment.old, memoizable_only=True)
     if not (
@@ -593,7 +597,20 @@ class _DiffFromAlignmentBuilder:
     # `Reference`s where appropriate.
     diff_value = yield
 
-    if not self.alignment.is_new_value_aligned(new_value):  # New object.
+    if isinstance(new_value, tuple) and self.alignment.is_new_value_aligned(
+        new_value
+    ):
+      old_tuple = self.alignment.old_from_new(new_value)
+      if not all(
+          self.aligned_or_equal(old_child, new_child)
+          for old_child, new_child in zip(old_tuple, new_value)
+      ):
+        self._replaced_tuple_ids.add(id(new_value))
+
+    if (
+        not self.alignment.is_new_value_aligned(new_value)
+        or id(new_value) in self._replaced_tuple_ids
+    ):  # New object.
       if len(new_paths) == 1 or not daglish.is_memoizable(new_value):
         return diff_value
       else:
@@ -698,6 +715,8 @@ class _DiffFromAlignmentBuilder:
       new_value: A value reachable from `self.alignment.new`.
     """
     if daglish.is_memoizable(new_value) or daglish.is_memoizable(old_value):
+      if id(new_value) in self._replaced_tuple_ids:
+        return False
       return (self.alignment.is_old_value_aligned(old_value) and
               self.alignment.new_from_old(old_value) is new_value)
     elif old_value is new_value:
